@@ -178,9 +178,15 @@ contract('parso.python.diff._ends_with_newline', params={'leaf': 'ref:Leaf', 'su
 # ---- _get_last_line: the last line a copied node occupies.  Preconditions (assumed of the diff parser's callers): the
 # node is followed by another leaf (the endmarker at least), EXISTS_ND for its last leaf.
 LL = 'leaf_at(root(node_or_leaf), hi(node_or_leaf))'
+NXT = 'leaf_at(root(node_or_leaf), hi(node_or_leaf) + 1)'
+LL_ENDS_NL = NEAREST_NL.replace('root(leaf)', 'root(node_or_leaf)').replace('lo(leaf)', 'hi(node_or_leaf)')
 contract('parso.python.diff._get_last_line', params={'node_or_leaf': 'ref:NodeOrLeaf'}, returns='int',
          requires=['node_or_leaf is not None', 'hi(node_or_leaf) < hi(root(node_or_leaf))',
                    'forall(lambda l: implies(l is not None and is_leaf(l) and root(l) is root(node_or_leaf) and lo(l) == hi(node_or_leaf), %s), '
                    'kinds=dict(l="ref:Leaf"))' % exists_nd('l')],
-         ensures=['result == spos(%s)[0] or result == epos(%s)[0] or result == epos(%s)[0] + 1' % (LL, LL, LL)],
+         # the line of the last leaf when the text up to there ends in a newline leaf; otherwise the line its text ends on,
+         # plus one when only the endmarker follows and its prefix holds a line feed
+         ensures=['implies(%s, result == spos(%s)[0])' % (LL_ENDS_NL, LL),
+                  'implies(not %s and %s.type == "endmarker" and "\\n" in %s.prefix, result == epos(%s)[0] + 1)' % (LL_ENDS_NL, NXT, NXT, LL),
+                  'implies(not %s and not (%s.type == "endmarker" and "\\n" in %s.prefix), result == epos(%s)[0])' % (LL_ENDS_NL, NXT, NXT, LL)],
          theories=['tree', 'treepos', 'leafnum'], props=['C04'])
